@@ -10,7 +10,7 @@ One shape per line:   `<caps> <args> <ret> <call>`
 
 Answer:  `M <wiring> | V <wiring> | S <wiring>` where
   M = the token munchers run rule by rule (`expandSteps`) and the local macro run on a call with one
-      expression per argument (`callIter`);
+      expression per argument (`callRun`: the two arms as matchers on the call's tokens);
   S = the closed form the theorems of Props/C20 prove it equal to (`specExpansion`), `any` outside the
       supported shapes (no argument, repeated names).
   wiring = `fn(a0,&c1,&mut c0)->T rec(c1,c0) clo(a0;a0;&c1,&mut c0) steps=N call=K` (`stuck` if no rule applies).
@@ -29,16 +29,9 @@ def showExpansion (e : Expansion) : String :=
   s!"clo({commaSep e.closureParams};{commaSep e.closureCallArgs};{commaSep (e.closureCallTail.map showParam)})"
 
 /-- Number of local-macro steps until `_lambda_name_(…)` is emitted for a call with the given expressions,
-    and what is emitted (user expressions, appended names). -/
+    and what is emitted (user expressions, appended names): the two arms run on the call's token stream. -/
 def runCall (e : Expansion) (exprs : List String) (tc : Bool) : Option (Nat × List String × List String) :=
-  let rec go (fuel used : Nat) (st : CallSt String) : Option (Nat × List String × List String) :=
-    match st with
-    | .done us tail => some (used, us, tail.map (·.1))
-    | st =>
-      match fuel with
-      | 0 => none
-      | fuel + 1 => (callStep e st).bind (go fuel (used + 1))
-  go 3 0 (.inv exprs tc)
+  (callRun e 3 0 (.inv (callToks exprs tc))).map fun r => (r.2.2, r.1, r.2.1.map (·.1))
 
 def showCall (exprs : List String) : Option (Nat × List String × List String) → String
   | none => "call=stuck"
@@ -103,7 +96,7 @@ def updAll : List (Name × Nat) → (Nat → Val → Val) → Body → Body
   | [], _, k => k
   | (c, i) :: rest, f, k => .read c fun cv => .write c (f i cv) (updAll rest f k)
 
-def arithBody (inv : Inv) : Body :=
+def arithBody (inv : Inv) (tc : Bool) : Body :=
   let idx := (List.range inv.caps.length).zip inv.caps
   let shared := idx.filterMap fun (i, (n, m)) => if m then none else some (n, i)
   let muts := idx.filterMap fun (i, (n, m)) => if m then some (n, i) else none
@@ -121,12 +114,12 @@ def arithBody (inv : Inv) : Body :=
   updAll muts (fun i c => step31 c (xor64 a0 sh) ((i : Int) + 1)) <|
   if a0 ≤ 0 then .ret (if hasRet then w64 (sh + last) else 0)
   else if a0.tmod 3 = 0 then
-    .call rec1 fun x =>
+    .call tc rec1 fun x =>
     if hasRet then after x (.ret (w64 (x + 1))) else after a0 (.ret 0)
   else
-    .call rec1 fun x =>
-    if hasRet then .call rec2 fun y => after (xor64 x y) (.ret (w64 (w64 (x * 7) + y)))
-    else after (a0 + 1) (.call rec2 fun _ => .ret 0)
+    .call tc rec1 fun x =>
+    if hasRet then .call tc rec2 fun y => after (xor64 x y) (.ret (w64 (w64 (x * 7) + y)))
+    else after (a0 + 1) (.call tc rec2 fun _ => .ret 0)
 
 def storeOf (kv : List (Name × Val)) : Store := fun n => (kv.lookup n).getD 0
 
@@ -140,7 +133,7 @@ def runCalls (f : List Val → Store → Res) (hasRet : Bool) : List (List Val) 
 
 def showErr : Err → String
   | .fuel => "fuel" | .unbound n => s!"unbound:{n}" | .notMutable n => s!"notMutable:{n}"
-  | .arity => "arity" | .kind n => s!"kind:{n}"
+  | .arity => "arity" | .kind n => s!"kind:{n}" | .noRule => "noRule"
 
 def showRun (caps : List (Name × Bool)) : Except Err (String × Store) → String
   | .error e => "error:" ++ showErr e
@@ -152,7 +145,7 @@ def handleRun (line : String) (c a r call ini : String) (ins : List String) : St
   | some caps, some args, some ret, some inits, some inputs =>
     if call ≠ "tc" ∧ call ≠ "ntc" then badLine line else
     let inv : Inv := { caps := caps, args := args, ret := ret }
-    let body := arithBody inv
+    let body := arithBody inv (call = "tc")
     let s0 := storeOf ((caps.map (·.1)).zip inits)
     let spec := showRun caps (runCalls (evalE inv body 64) ret.isSome inputs s0 "")
     let m :=
